@@ -1,4 +1,5 @@
 import Driver.Rainflow
+import Driver.RainflowLit
 import Driver.HCM
 import Driver.FkmNonlinear
 import Driver.Woehler
@@ -18,7 +19,7 @@ import Driver.PRAJ
 open PylifeVerif.Driver
 
 /-- All handlers; the first that recognises the op answers. -/
-def handlers : List (List String → Option String) := [handleRainflow, handleHCM, handleFkmNonlinear, handleWoehler, handleCollective, handleEquistress, handleMiner, handleMaterialLaws, handleBroadcast, handleMeanstress, handleVmap, handleNotch, handleMesh, handleFailureProb, handleWoehlerAnalysis, handleAssessment, handlePRAJ]
+def handlers : List (List String → Option String) := [handleRainflow, handleRainflowLit, handleHCM, handleFkmNonlinear, handleWoehler, handleCollective, handleEquistress, handleMiner, handleMaterialLaws, handleBroadcast, handleMeanstress, handleVmap, handleNotch, handleMesh, handleFailureProb, handleWoehlerAnalysis, handleAssessment, handlePRAJ]
 
 def answer (line : String) : String :=
   let toks := (line.splitOn " ").filter (· ≠ "")
